@@ -329,6 +329,17 @@ def op_table(o: Operands, subset=False):
         wrows, wcols = np.array([0, 1, L - 1, L, L + 1, L + 1]), np.array([0, 2, 3, 0, 2, 3])
         wide = sparse.COO(np.stack([wrows, wcols]).astype(np.int64), np.arange(1, 7), shape=(L + 2, m), has_duplicates=False, sorted=True)
         widef = sparse.COO(np.stack([wrows, wcols]).astype(np.int64), np.arange(1, 7), shape=(L + 2, m), has_duplicates=False, sorted=True, fill_value=1)
+        # products: the result's column numbers come from the RIGHT operand's last axis, which the left operand's narrow type cannot count
+        left = o.mk(np.array([[0, 1, 2, 2], [0, 2, 1, 3]]), np.array([1, 2, 3, 4]), (3, m))
+        rcols = np.array([0, 1, L - 1, L, L + 1, L + 1])
+        right = sparse.COO(np.stack([np.array([0, 2, 3, 0, 1, 3]), rcols]).astype(np.int64), np.arange(1, 7), shape=(m, L + 2), has_duplicates=False, sorted=True)
+        add("product", "narrow@wide", lambda: left @ right)
+        add("product", "dot(narrow,wide)", lambda: sparse.dot(left, right))
+        add("product", "tensordot(narrow,wide)", lambda: sparse.tensordot(left, right, axes=([1], [0])), not subset)
+        add("product", "wide.T@narrow.T", lambda: right.T @ left.T, not subset)
+        add("product", "narrow.gcxs@wide.gcxs", lambda: left.asformat("gcxs") @ right.asformat("gcxs"), not subset)
+        add("product", "einsum(narrow,wide)", lambda: sparse.einsum("ij,jk->ik", left, right), not subset)
+        add("product", "kron(narrow,narrow big)", lambda: sparse.kron(left, o.mk(np.array([[0, L // 3]]), np.array([1, 2]), (L // 3 + 1,))), not subset)
         for nm, nar in (("nar(m,)", nar1), ("nar(1,m)", nar2)):
             add("elemwise", f"{nm}*wide", lambda nar=nar: nar * wide)
             add("elemwise", f"wide*{nm}", lambda nar=nar: wide * nar)
